@@ -335,6 +335,8 @@ package hackpadfs
 //@   loop 1 invariant "leaf-done" implies(!contains(path, "/") && i == len(path) + 1, (old(maMkErr(fs, path, perm)) == nil && world() == old(maW1(fs, path, perm))) ||
 //@                      (old(maExistsDir(fs, path, perm)) && world() == old(maW2(fs, path, perm))))
 //@   loop 1 decreases len(path) + 1 - i
+//@   callsite Mkdir requires "every-step-makes-an-ancestor-or-the-path-with-the-callers-mode" [C08] arg0 == fs && arg2 == perm && (arg1 == path || hasPrefix(path, arg1 + "/"))
+//@   callsite Stat requires "looks-only-at-what-mkdir-refused" [C08] arg0 == fs
 //@   ensures "native" implies(implements(fs, MkdirAllFS), err == old(ret("hackpadfs.(MkdirAllFS).MkdirAll", 0, fs, path, perm)) &&
 //@                      world() == old(worldAfter("hackpadfs.(MkdirAllFS).MkdirAll", fs, path, perm)))
 //@   ensures "mount" implies(!implements(fs, MkdirAllFS) && implements(fs, MountFS), translated(err, old(ret("hackpadfs.MkdirAll", 0, mountOf(fs, path), subOf(fs, path), perm)), path, old(subOf(fs, path))) &&
@@ -367,6 +369,10 @@ package hackpadfs
 //@   deterministic
 //@   requires fs != nil
 //@   propagates [C08] removeAll
+//@   callsite Remove requires "removes-only-the-named-entry" [C08] arg0 == fs && arg1 == path
+//@   callsite removeAll requires "recurses-in-the-same-file-system" [C08] arg0 == fs
+//@   callsite ReadDir requires "lists-the-named-directory" [C08] arg0 == fs && arg1 == path
+//@   callsite LstatOrStat requires "looks-at-the-named-entry" [C08] arg0 == fs && arg1 == path
 //@   propagates [C08] ReadDir
 //@   propagates [C08] LstatOrStat unless errIs(e, ErrNotExist)
 //@   propagates [C08] Remove unless errIs(e, ErrNotExist)
